@@ -67,8 +67,8 @@ func (k Keeper) RecvPacket(goCtx context.Context, msg *packettypes.MsgRecvPacket
 	}
 
 	if packet.GetDstChain() == k.ClientKeeper.GetChainName(cctx) {
-		// call packet onRecvPacket
-		res, err := k.PacketKeeper.CallPacket(ctx, "onRecvPacket", packet)
+		// call packet onRecvPacket on the cache context: its effects are kept only if it succeeds
+		res, err := k.PacketKeeper.CallPacket(cctx, "onRecvPacket", packet)
 		if err != nil {
 			// Write ErrAck
 			errAckBz, err := packettypes.NewAcknowledgement(1, []byte{}, "receive packet callback failed", relayer, packet.FeeOption).ABIPack()
@@ -91,6 +91,10 @@ func (k Keeper) RecvPacket(goCtx context.Context, msg *packettypes.MsgRecvPacket
 		}
 		if err := k.PacketKeeper.WriteAcknowledgement(ctx, &packet, ackBz); err != nil {
 			return nil, err
+		}
+		if result.Code != 0 {
+			// error acknowledgement: the sender is refunded, so nothing may remain here
+			return &packettypes.MsgRecvPacketResponse{}, nil
 		}
 	} else if _, found := k.ClientKeeper.GetClientState(ctx, packet.GetDstChain()); !found {
 		// Write ErrAck
